@@ -151,7 +151,7 @@ pub proof fn lemma_witness<R: VxReadSeek, V, F: VxReadValueFn<R, V>>(f: F, data:
     }
 //@ loop 1
         invariant
-            pair_size == psz, psz == size_of::<Value>() + 8, psz <= usize::MAX, n == num_entries, rs == read_start, n < 0x20_0000_0000_0000,
+            /*@C09*/ pair_size == psz, /*@C09*/ psz == size_of::<Value>() + 8, psz <= usize::MAX, n == num_entries, rs == read_start, n < 0x20_0000_0000_0000,
             rs + n * psz <= u64::MAX, sorted(d0, rs, psz, n), reader.data() == d0, d0 == old(reader).data(), old(reader).failed() ==> reader.failed(),
             result@.len() == old(result)@.len(),
             l0 == old(reader).log().len(), reader.log().len() >= l0, reader.log().subrange(0, l0) == old(reader).log(),
@@ -185,7 +185,7 @@ pub proof fn lemma_witness<R: VxReadSeek, V, F: VxReadValueFn<R, V>>(f: F, data:
                         g == vx_it1 - 1,
                         reader.pos() == off(rs, psz, g),
                     invariant
-                        pair_size == psz, psz == size_of::<Value>() + 8, psz <= usize::MAX, n == num_entries, rs == read_start,
+                        /*@C09*/ pair_size == psz, /*@C09*/ psz == size_of::<Value>() + 8, psz <= usize::MAX, n == num_entries, rs == read_start,
                         rs + n * psz <= u64::MAX, sorted(d0, rs, psz, n), reader.data() == d0, d0 == old(reader).data(), old(reader).failed() ==> reader.failed(),
                         result@.len() == old(result)@.len(),
                         l0 == old(reader).log().len(), reader.log().len() >= l0, reader.log().subrange(0, l0) == old(reader).log(),
@@ -210,7 +210,7 @@ pub proof fn lemma_witness<R: VxReadSeek, V, F: VxReadValueFn<R, V>>(f: F, data:
                     }
 //@ loop 3
         invariant
-            pair_size == psz, psz == size_of::<Value>() + 8, psz <= usize::MAX, n == num_entries, rs == read_start,
+            /*@C09*/ pair_size == psz, /*@C09*/ psz == size_of::<Value>() + 8, psz <= usize::MAX, n == num_entries, rs == read_start,
             rs + n * psz <= u64::MAX, sorted(d0, rs, psz, n), reader.data() == d0, d0 == old(reader).data(), old(reader).failed() ==> reader.failed(),
             result@.len() == old(result)@.len(),
             l0 == old(reader).log().len(), reader.log().len() >= l0, reader.log().subrange(0, l0) == old(reader).log(),
